@@ -67,9 +67,20 @@ class BaseDB(object):
         except KeyError:
             raise ValueError("Not a recognized database")
 
+    @staticmethod
+    def _is_reserved(username):
+        """Check if the name is one of the internal records, not a user."""
+        if isinstance(username, (bytes, bytearray)):
+            return username.startswith(b"--Reserved--")
+        return username.startswith("--Reserved--")
+
     def __getitem__(self, username):
         if self.db == None:
             raise AssertionError("DB not open")
+
+        # the internal records (like database type) are not user entries
+        if self._is_reserved(username):
+            raise KeyError(username)
 
         self.lock.acquire()
         try:
@@ -123,6 +134,9 @@ class BaseDB(object):
         """
         if self.db == None:
             raise AssertionError("DB not open")
+
+        if self._is_reserved(username):
+            return False
 
         self.lock.acquire()
         try:
